@@ -18,6 +18,13 @@ Theorem C03_parse_challenge_total : forall auth, parseRegistryChallenge auth <> 
 Proof. exact parse_challenge_total. Qed.
 Print Assumptions C03_parse_challenge_total.
 
+(** ... and neither does makeRequestWithRetry around it (401 -> challenge -> token -> one replay), whatever the registry
+    and the token service answer, for either redirect policy *)
+Theorem C03_requests_never_panic : forall closure ac fuel tok (rs : list hresp),
+  fst (fst (fst (mrwr true closure ac fuel tok rs))) <> RPanic.
+Proof. exact mrwr_no_panic. Qed.
+Print Assumptions C03_requests_never_panic.
+
 (** the function as it stood at the pinned commit panics exactly when the first occurrence of [key=] ends the header *)
 Theorem C03_getvalue_unrepaired_panics_iff : forall header key,
   getValue_orig header key = Panic <-> ends_at_key header key = true.
